@@ -22,7 +22,8 @@ from .. import core, tlc, validate
 PROP = "C19"
 KEYS = ["k1", "k2", "k3"]
 # "subdir.x" next to directory "subdir": the order of key tuples and the order of joined paths (the canonical one) differ
-CONCRETE_KEYS = {"k1": ("subdir.x",), "k2": ("subdir", "bar é"), "k3": ("subdir", "deep", "ba z.dir")}
+# (a literal backslash in a file name is just a character of the name)
+CONCRETE_KEYS = {"k1": ("subdir.x",), "k2": ("subdir", "bar\\e\u0301"), "k3": ("subdir", "deep", "ba z.dir")}
 ABSENT = "-"
 POLICIES = [sorted(p) for n in range(4) for p in itertools.combinations(["add", "change", "remove"], n)]
 
@@ -107,7 +108,8 @@ def _e2e(a, o, t, pol, vals, odb, alg="md5"):
     except BaseException as exc:  # noqa: BLE001
         return {"kind": "exc", "type": type(exc).__name__}
     m = _abstract(merged.as_dict(), vals)
-    ok = "corrupt" not in m.values() and merged.oid == canonical_dir_oid(m, vals, alg) and merged.hash_info.value == merged.oid
+    ok = ("corrupt" not in m.values() and all(k in CONCRETE_KEYS for k in m)
+          and merged.oid == canonical_dir_oid(m, vals, alg) and merged.hash_info.value == merged.oid)
     return {"kind": "merged", "m": m, "canon": "yes" if ok else "no"}
 
 
